@@ -5,6 +5,7 @@ import (
 	"math/rand"
 
 	"github.com/yaricom/goNEAT/v4/neat/genetics"
+	neatmath "github.com/yaricom/goNEAT/v4/neat/math"
 	"github.com/yaricom/goNEAT/v4/neat/network"
 	"gonum.org/v1/gonum/graph"
 )
@@ -349,6 +350,38 @@ func runC11(c *Ctx, idx int) {
 		for k := 0; k < 12; k++ {
 			s := snapGenome(g)
 			modularVariants(r, s)
+			if r.Intn(3) == 0 {
+				// the modular genome after a run of add-node mutations: 18-24 further hidden nodes whose ids lie above the control
+				// node ids, more than 32 nodes in all
+				next := 0
+				for _, m := range s.Modules {
+					if m.CtrlId > next {
+						next = m.CtrlId
+					}
+				}
+				innov := int64(0)
+				for _, gn := range s.Genes {
+					if gn.Innov > innov {
+						innov = gn.Innov
+					}
+				}
+				for _, m := range s.Modules {
+					if m.Innov > innov {
+						innov = m.Innov
+					}
+				}
+				prev := 2
+				for k := 0; k < 18+r.Intn(7); k++ {
+					next++
+					s.Nodes = append(s.Nodes, SnapNode{Id: next, Neuron: byte(network.HiddenNeuron), Act: byte(neatmath.SigmoidSteepenedActivation)})
+					innov++
+					s.Genes = append(s.Genes, SnapGene{In: prev, Out: next, Innov: innov, W: fbits(r.NormFloat64()), En: r.Intn(4) != 0})
+					prev = next
+				}
+				innov++
+				s.Genes = append(s.Genes, SnapGene{In: prev, Out: 6, Innov: innov, W: fbits(r.NormFloat64()), En: true})
+				c.Count("genomes.modular_grown_beyond_32_nodes", 1)
+			}
 			for i := range s.Modules {
 				s.Modules[i].En = r.Intn(3) != 0
 			}
@@ -392,6 +425,32 @@ func runC11(c *Ctx, idx int) {
 		if d := diffGenomes(s, snapGenome(fresh)); d != "" {
 			c.Violate("genome-modified", detail(), "expressing the genome (and querying the network) modified the genome: %s", d)
 			return
+		}
+		// a network handed out earlier stays what it was when the organism rebuilds its phenotype (somebody may still hold it)
+		if len(s.Modules) == 0 {
+			held := buildFromSnap(s)
+			org1, _ := genetics.NewOrganism(0, held, 1)
+			oldNet, perr := org1.Phenotype()
+			org2, _ := genetics.NewOrganism(0, held, 1)
+			if perr == nil && oldNet != nil {
+				if uerr := org1.UpdatePhenotype(); uerr != nil {
+					c.Violate("update-phenotype-error", detail(), "UpdatePhenotype failed on an unchanged genome: %v", uerr)
+					return
+				}
+				newNet, _ := org1.Phenotype()
+				other, _ := org2.Phenotype()
+				c.Count("organisms.network_held_across_update", 1)
+				for name, nw := range map[string]*network.Network{"the network handed out before UpdatePhenotype": oldNet, "the rebuilt network": newNet,
+					"the network of a second organism over the same genome": other} {
+					if nw == nil {
+						continue
+					}
+					if kind, msg := checkNetwork(c, s, nw, false); kind != "" {
+						c.Violate("held/"+kind, detail(), "%s no longer expresses the (unchanged) genome: %s", name, msg)
+						return
+					}
+				}
+			}
 		}
 		// express the same genome object again after it was changed in place (same and another network id): the new
 		// network describes the genome as it is now, not as it was when it was expressed first
